@@ -213,6 +213,20 @@ def real_scenarios(ctx):
     return scs
 
 
+def mix_scenarios(ctx):
+    """reliable writers concurrent with datagram writers on one quic transport (StreamFraming with DWriters > 0)."""
+    scs = []
+    cfgs = [("pm", 6, 1, 1), ("pm", 1, 2, 1), ("pm", 9, 1, 2), ("off", 0, 2, 2)]
+    if not ctx.quick():
+        cfgs += [("pm", 6, 3, 2), ("pm", 4, 1, 1), ("pm", 2, 2, 2), ("pm", 6, 1, 3)]
+    for i, (mode, level, writers, dwriters) in enumerate(cfgs):
+        for j, lens in enumerate([[70000, 100000, 66000], [130000], [2000, 90000]]):
+            p = {"mode": mode, "level": level, "writers": writers, "dwriters": dwriters, "per": 40 if ctx.quick() else 120, "lens": lens,
+                 "seed": 80 + 3 * i + j, "content": CONTENTS[(i + j) % 3], "rchunk": [0, 4096, 65536][j]}
+            scs.append({"id": "C13/qmix/%s-%d-w%d-d%d/%d" % (mode, level, writers, dwriters, j), "kind": "quicmix", "p": p, "steps": []})
+    return scs
+
+
 def run():
     ctx = Ctx("C13")
     ctx.harness_cmd = "vhwswindow"
@@ -239,6 +253,12 @@ def run():
     retry(ctx.l1, "WsWindow", "WsWindow_q.cfg")
     retry(ctx.l1, "WsWindow", "WsWindowConc_q.cfg")
     retry(ctx.l1, "StreamFraming", "StreamFraming_q.cfg")
+    # one compressor per transport instead of one per message: harmless between the reliable writers (send lock), corrupts messages as
+    # soon as a datagram writer (no lock) runs concurrently
+    r = retry(ctx.l1, "StreamFraming", "StreamFraming_sharedenc.cfg", must_hold=False)
+    if r.violated != "NoCorruptMessage":
+        raise Inconclusive("StreamFraming with a shared encoder and a datagram writer should violate NoCorruptMessage, got %s" % (r.violated or r.error))
+    retry(ctx.l1, "StreamFraming", "StreamFraming_sharedenc_nodgram.cfg")
     # the reader contract of the backends: before the repair (DrainAfterDecode = FALSE) a strict backend (coder, nhooyr) refuses the
     # second compressed message; a lenient one (gorilla) does not care
     sensitivity(ctx, "nodrain_strict", "NoReaderRefused", modes="ModesPmCt", drain="FALSE", strict="TRUE")
@@ -327,6 +347,10 @@ def run():
         trace2 = ctx.run_scenarios(part, "c13real-" + backend, par=8, timeout=1500, cmd="vhwsreal-" + backend)
         verdicts2, _ = retry(ctx.validate, trace2, "MonC13r", consts=MON_CONSTS, timeout=1200)
         nreal += ctx.judge(part, trace2, verdicts2)
+    mix = mix_scenarios(ctx)
+    trace3 = ctx.run_scenarios(mix, "c13mix", par=4, timeout=1500)
+    verdicts3, _ = retry(ctx.validate, trace3, "MonC13r", consts=MON_CONSTS, timeout=1200)
+    ctx.judge(mix, trace3, verdicts3)
     if nreal < len(real) // 2:
         raise Inconclusive("only %d of %d real-backend scenarios could be judged (no loopback listener?)" % (nreal, len(real)))
     if ctx.violations:
